@@ -231,8 +231,10 @@ def harness(args, pkg="vh", timeout=3600, stdin=None, env=None, check=True):
 
 
 def spec_hash(*names):
+    """hash of ALL specification modules (spec/lib and spec/) plus the named files (MC module, cfg):
+    any change to any specification invalidates every cached model-checking result"""
     h = hashlib.sha256()
-    for d in SPEC_DIRS[:1]:
+    for d in SPEC_DIRS[:2]:
         for f in sorted(os.listdir(d)):
             if f.endswith(".tla"):
                 h.update(open(os.path.join(d, f), "rb").read())
